@@ -1,0 +1,40 @@
+#ifndef KALIGN_VERIF_H
+#define KALIGN_VERIF_H
+/* Observation hooks for runtime verification. Only compiled when
+   -DKALIGN_VERIF is given; the functions are provided by the
+   verification runtime that is linked into such builds. */
+#ifdef KALIGN_VERIF
+
+struct msa;
+struct aln_tasks;
+struct aln_mem;
+struct aln_param;
+
+#define KV_FWD_BEGIN 0
+#define KV_FWD_END 1
+#define KV_BWD_BEGIN 2
+#define KV_BWD_END 3
+#define KV_MEET_BEGIN 4
+#define KV_MEET_END 5
+
+#define KV_KM_ENTER 0
+#define KV_KM_SPLIT_BEGIN 1
+#define KV_KM_SPLIT_END 2
+#define KV_KM_REDUCE 3
+#define KV_KM_NODE_DONE 4
+
+#ifdef __cplusplus
+extern "C" {
+#endif
+void kv_merge_begin(struct msa* msa, struct aln_tasks* t, struct aln_mem* m, int task_id);
+void kv_merge_end(struct msa* msa, struct aln_tasks* t, struct aln_mem* m, int task_id);
+void kv_dp(int kind, struct aln_mem* m);
+void kv_param(struct aln_param* ap, int biotype, int type, float gpo, float gpe, float tgpe);
+void kv_km(int kind, const void* slot, const void* left, const void* right);
+void kv_run(int kind, struct msa* msa);
+#ifdef __cplusplus
+}
+#endif
+
+#endif
+#endif
